@@ -67,6 +67,10 @@ def num_of(key, prefix):
     return key if prefix is None else int(key[key.rfind('-') + 1:])
 
 
+class _Rollback(Exception):
+    pass
+
+
 def seq_ops(index_only, prefixes=PREFIXES):
     p = st.sampled_from(prefixes)
     side = st.sampled_from(['front', 'back'])
@@ -78,6 +82,7 @@ def seq_ops(index_only, prefixes=PREFIXES):
         st.tuples(st.just('push'), v, p, st.sampled_from(['back', 'back', 'front']), st.none() if index_only else ttl),
         st.tuples(st.just('pull'), p, side),
         st.tuples(st.just('pull'), p, side),
+        st.tuples(st.just('abortpull'), p, side),  # a transaction block pulls an item and rolls back: the item is still queued
         st.tuples(st.just('oset'), st.sampled_from(ORDINARY), v),
         st.tuples(st.just('oget'), st.sampled_from(ORDINARY)),
         st.tuples(st.just('odel'), st.sampled_from(ORDINARY)),
@@ -204,6 +209,16 @@ class Sequential(SubCheck):
                             fail(name + '-order', '%s(prefix=%r, side=%s) returned %s, expected %s' % (name, prefix, side, short(got), short((exp.key, exp.value))), op)
                         if name == 'pull':
                             q.remove(exp)
+                elif name == 'abortpull':
+                    try:
+                        with obj.transact():
+                            if case['origin'] == 'index':
+                                obj.pull(op[1], (None, MISS), op[2])
+                            else:
+                                obj.pull(prefix=op[1], default=(None, MISS), side=op[2])
+                            raise _Rollback()
+                    except _Rollback:
+                        pass
                 elif name == 'oset':
                     obj[op[1]] = mkv(op[2])
                     ordinary[op[1]] = mkv(op[2])
